@@ -11,6 +11,8 @@ CONSTANTS
   MaxAdds = 0
   AskSet = {"specs"}
   KeyMode = "any"
+  WalkMech = "bfs"
+  Prefix <- NoPrefix
 INVARIANT TypeOK
 INVARIANT RegistryInverse
 INVARIANT RegistryIsDeclared
@@ -21,5 +23,6 @@ INVARIANT PeelLaws
 INVARIANT BfsLaws
 INVARIANT HelperLaws
 INVARIANT SpecLaws
+INVARIANT CodeFormDeviatesOnlyInClasses
 CONSTRAINT Emit
 CHECK_DEADLOCK FALSE
